@@ -41,27 +41,27 @@ MAX_STEPS = 8000
 
 def cases(tier, seed):
     out = []
-    n = 56 if tier == 'quick' else 500
+    n = 56 if tier == 'quick' else 1500
     for i in range(n):
         out.append({'name': 'asm-%d' % i, 'kind': 'asm',
                     'seed': [seed, 41, i]})
-    n = 10 if tier == 'quick' else 90
+    n = 10 if tier == 'quick' else 300
     for i in range(n):
         out.append({'name': 'core-%d' % i, 'kind': 'core',
                     'seed': [seed, 42, i]})
-    n = 16 if tier == 'quick' else 120
+    n = 16 if tier == 'quick' else 400
     for i in range(n):
         out.append({'name': 'maxp-%d' % i, 'kind': 'maxp',
                     'seed': [seed, 43, i]})
-    n = 24 if tier == 'quick' else 200
+    n = 24 if tier == 'quick' else 600
     for i in range(n):
         out.append({'name': 'lowfi-%d' % i, 'kind': 'lowfi',
                     'seed': [seed, 44, i]})
-    n = 16 if tier == 'quick' else 120
+    n = 16 if tier == 'quick' else 400
     for i in range(n):
         out.append({'name': 'approx-%d' % i, 'kind': 'approx',
                     'seed': [seed, 45, i]})
-    n = 14 if tier == 'quick' else 120
+    n = 14 if tier == 'quick' else 400
     for i in range(n):
         out.append({'name': 'bypass-%d' % i, 'kind': 'bypass',
                     'seed': [seed, 46, i]})
